@@ -136,6 +136,9 @@ func satMatches(resp *Response, acc []satAcc, left []string, levels []map[string
 }
 
 func c13Check(c *Case) []Violation {
+	if c.Kind == "seeded-order" {
+		return seededOrderRepeatable(c, "C13")
+	}
 	req := asM(roundTrip(c.Req))
 	out := Decide(J(c.Req), scriptFromCase(c))
 	if !out.Accepted {
@@ -391,9 +394,35 @@ func satEnumerate(s *Shard, prop string, fn func(c *Case)) {
 	}
 }
 
+func satLong(s *Shard, prop string, fn func(c *Case)) {
+	lv := []float64{0.5, 1, 2.9}
+	for _, spec := range longSeries(false) {
+		for _, typ := range []string{"gain", "cost"} {
+			Product([]int{3, 3, 3}, func(idx []int) {
+				if !s.Take() {
+					return
+				}
+				vals := [][]float64{{lv[idx[0]], 1}, {lv[idx[1]], 1}, {lv[idx[2]], 1}}
+				cfg := satCfg{N: 3, Vals: vals, Types: []string{typ, "gain"}, Spec: spec, ZVal: 3}
+				fn(&Case{Prop: prop, Kind: "satisfaction", Req: satRequest(cfg)})
+			})
+		}
+	}
+}
+
 func c13Run(s *Shard) {
 	cur = s
 	n := 0
+	seededOrderCases(s, "C13", "satisfactionHeuristic", func(c *Case) {
+		s.Evals += 4
+		s.Begin(c)
+		s.Report(c13Check(c))
+	})
+	satLong(s, "C13", func(c *Case) {
+		s.Evals++
+		s.Begin(c)
+		s.Report(c13Check(c))
+	})
 	satEnumerate(s, "C13", func(c *Case) {
 		s.Evals++
 		s.Begin(c)
